@@ -1,0 +1,8 @@
+//go:build !verif
+
+// Package verifhook provides named observation points for external
+// verification harnesses. Without the "verif" build tag every call is a no-op.
+package verifhook
+
+// At marks a named point in the code. It does nothing in regular builds.
+func At(point string, args ...any) {}
